@@ -32,7 +32,7 @@ REQUIRED_THEOREMS = [
     "C10_fid_overlap", "C10_fid_range", "C10_fid_self", "C10_fid_phase_invariant",
     "C10_kl_formula", "C10_kl_nonneg", "C10_kl_self_zero", "C10_nll_formula", "C10_kind",
     "C10_fid_mixed_partial", "C10_fid_mixed_self", "C10_fid_mixed_uhlmann", "C10_fid_mixed_range", "C10_fid_mixed_self_uhlmann", "C10_nll_perm", "C10_kl_self_zero_mixed", "C10_kl_formula_mixed",
-    "C10_kl_nonneg_mixed", "C10_nll_formula_mixed", "C10_fid_rbm", "C10_kl_self_zero_rbm", "C10_known_F10_witness",
+    "C10_kl_nonneg_mixed", "C10_nll_formula_mixed", "C10_fid_rbm", "C10_kl_self_zero_rbm", "C10_pos_default_dict",
 ]
 EXTRA_TRUSTED = [
     "np.linalg.eigvals is external to the model (its result is an argument of fidelityMixed); the harness checks every "
@@ -194,11 +194,11 @@ POS_SIG = "PositiveWaveFunction/rotated-bases/AttributeError-unitary_dict"
 
 
 def pos_no_dict(ctx, case, out, what):
-    """Known finding F10: KL over a list of bases / NLL with a rotated group on a PositiveWaveFunction raise AttributeError
-    (the class has no `unitary_dict`; modelled by `dict = none`). Reported with the known signature only while the
-    implementation still raises there."""
+    """Former finding F10 (fixed by 4aa6393): KL over a list of bases / NLL with a rotated group on a PositiveWaveFunction raised
+    AttributeError (the class has no `unitary_dict`). The model (`effDict`) now rotates with the default dictionary; if the
+    implementation raises there again it is reported under the old signature (which is no longer a listed known finding)."""
     ctx.count("pos.rotated_bases->AttributeError")
-    ctx.oracle(f"{what} returns a plain real number", False, case, detail={"error": out[1]}, sig=POS_SIG, theorem="C10_kind")
+    ctx.oracle(f"{what} returns a plain real number", False, case, detail={"error": out[1]}, sig=POS_SIG, theorem="C10_pos_default_dict")
 
 
 def known_witness(ctx):
